@@ -45,7 +45,10 @@ def members():
     for fmt, lo, hi in (("int32", I32_MIN, I32_MAX), ("int64", -2**63, I64_MAX), (None, -2**63, I64_MAX)):
         for b in ({"minimum": 0, "maximum": 10}, {"minimum": -5}, {"maximum": 7}, {"exclusiveMinimum": 0, "exclusiveMaximum": 10}, {"minimum": 3, "exclusiveMaximum": 4},
                   {"exclusiveMinimum": -1, "maximum": 0}, {"minimum": 1, "maximum": 1}, {"exclusiveMaximum": 2**40}, {"exclusiveMinimum": -2**40}, {"maximum": 2**40}, {"minimum": -2**40},
-                  {"minimum": lo, "maximum": hi}):
+                  {"minimum": lo, "maximum": hi},
+                  # both forms on one side: the stricter one decides
+                  {"minimum": 5, "exclusiveMinimum": 0}, {"minimum": 0, "exclusiveMinimum": 5}, {"maximum": 10, "exclusiveMaximum": 100}, {"maximum": 100, "exclusiveMaximum": 10},
+                  {"minimum": 1, "exclusiveMinimum": 1, "maximum": 3, "exclusiveMaximum": 3}):
             sch = dict({"type": "integer"}, **b)
             if fmt:
                 sch["format"] = fmt
@@ -56,7 +59,8 @@ def members():
             vals = sorted(x for x in pts if lo <= x <= hi)
             ints.append((f"int_{fmt}_{'_'.join(f'{k[:4]}{v}' for k, v in b.items())}", sch, vals))
     out += ints
-    for b in ({"minimum": 0.5, "maximum": 1.5}, {"exclusiveMinimum": 0, "exclusiveMaximum": 1}, {"minimum": -2.25}, {"exclusiveMaximum": 100}):
+    for b in ({"minimum": 0.5, "maximum": 1.5}, {"exclusiveMinimum": 0, "exclusiveMaximum": 1}, {"minimum": -2.25}, {"exclusiveMaximum": 100},
+              {"minimum": 1, "exclusiveMinimum": 0}, {"maximum": 10, "exclusiveMaximum": 100}):
         sch = dict({"type": "number"}, **b)
         vals = sorted({x for v in b.values() for x in (v - 0.25, v, v + 0.25)})
         out.append((f"num_{'_'.join(f'{k[:4]}{v}' for k, v in b.items())}", sch, vals))
@@ -245,7 +249,9 @@ def main(tier, seed, replay=None):
                     viol.append((c, f"{c['member']}@{c['placement']}: validate() rejects {json.dumps(v)} which satisfies {json.dumps(c['schema'])}", classify_incomplete(c, v)))
     # ---- the client validates before sending
     n_methods, bad_methods = client_validates(d)
-    res.oblige(f"client: every generated client method ({n_methods}) calls request.validate()? before building the request", not bad_methods, "; ".join(bad_methods[:3]))
+    res.oblige(f"client: the generated client ({n_methods} methods) could be read back", n_methods > 0, "; ".join(bad_methods[:1]) if n_methods == 0 else "")
+    for b in (bad_methods if n_methods > 0 else []):
+        viol.append(({"client_spec": "lib/c16.py client_validates", "method": b.split(":")[0]}, f"generated client method does not refuse an invalid request before building it: {b}", None))
     res.counts.update({"evaluations": len(cases), "distinct_nontrivial": len(ar.cases), "comparisons": n_probe, "probes": n_probe,
                        "unsound_observations": n_sound, "incomplete_observations": n_complete, "traces_validated_against_impl": len(ar.cases),
                        "exhaustive": tier != "quick",
@@ -284,6 +290,9 @@ def client_validates(d):
                              "requestBody": {"required": True, "content": {"application/json": {"schema": {"type": "object", "properties": {"s": {"type": "string", "minLength": 2}}}}}},
                              "responses": {"204": {"description": "n"}}},
                     "get": {"operationId": "get_a", "parameters": [{"name": "id", "in": "path", "required": True, "schema": {"type": "string"}}], "responses": {"204": {"description": "n"}}}},
+        "/w": {"post": {"operationId": "make_w", "requestBody": {"required": True, "content": {"application/json": {"schema": {"type": "object", "required": ["name"], "properties": {
+                                     "name": {"type": "string", "minLength": 3, "pattern": "^w"}, "n": {"type": "integer", "maximum": 9}}}}}}, "responses": {"204": {"description": "n"}}},
+               "put": {"operationId": "put_w", "requestBody": {"content": {"application/json": {"schema": {"type": "object", "properties": {"mail": {"type": "string", "format": "email"}}}}}}, "responses": {"204": {"description": "n"}}}},
         "/b": {"delete": {"operationId": "del_b", "parameters": [{"name": "X-K", "in": "header", "schema": {"type": "string", "pattern": "^k"}}], "responses": {"204": {"description": "n"}}}}},
         "components": {"schemas": {}}}
     sp = os.path.join(d, "client.json")
